@@ -18,6 +18,11 @@ DamageOps == <<
   [name |-> "truncated-x-escape", kind |-> "inline", frag |-> <<"\"", "a", "\\", "x", "4", "\"">>],
   [name |-> "truncated-u-escape", kind |-> "inline", frag |-> <<"\"", "a", "\\", "u", "1", "2", "\"">>],
   [name |-> "nonhex-escape", kind |-> "inline", frag |-> <<"\"", "a", "\\", "x", "Z", "Z", "\"">>],
+  [name |-> "escape-plus-sign-x", kind |-> "inline", frag |-> <<"\"", "\\", "x", "+", "1", "\"">>],
+  [name |-> "escape-plus-sign-u", kind |-> "inline", frag |-> <<"\"", "a", "\\", "u", "+", "3", "b", "c", "\"">>],
+  [name |-> "escape-plus-sign-U", kind |-> "inline", frag |-> <<"\"", "\\", "U", "+", "0", "0", "1", "F", "6", "0", "0", "\"">>],
+  [name |-> "escape-minus-sign", kind |-> "inline", frag |-> <<"\"", "\\", "x", "-", "1", "\"">>],
+  [name |-> "escape-blank-digit", kind |-> "inline", frag |-> <<"\"", "\\", "u", " ", "0", "4", "1", "\"">>],
   [name |-> "surrogate-escape", kind |-> "inline", frag |-> <<"\"", "\\", "u", "D", "8", "0", "0", "\"">>],
   [name |-> "surrogate-escape-low", kind |-> "inline", frag |-> <<"\"", "a", "\\", "U", "0", "0", "0", "0", "d", "f", "f", "f", "\"">>],
   [name |-> "escape-beyond-unicode", kind |-> "inline", frag |-> <<"\"", "\\", "U", "0", "0", "1", "1", "0", "0", "0", "0", "\"">>],
@@ -50,6 +55,8 @@ DamageOps == <<
   [name |-> "directive-without-start", kind |-> "stream", frag |-> <<"%", "Y", "A", "M", "L", " ", "1", ".", "2", "\n", "a", "\n">>],
   [name |-> "tag-directive-without-start", kind |-> "stream", frag |-> <<"%", "T", "A", "G", " ", "!", "e", "!", " ", "t", "a", "g", ":", "e", ":", "\n", "a", ":", " ", "b", "\n">>],
   [name |-> "content-after-document-end", kind |-> "stream", frag |-> <<"-", "-", "-", " ", "a", "\n", ".", ".", ".", " ", "b", "\n">>],
+  [name |-> "handle-of-previous-document-bare", kind |-> "stream", frag |-> <<"%", "T", "A", "G", " ", "!", "e", "!", " ", "t", "a", "g", ":", "e", ":", "\n", "-", "-", "-", " ", "!", "e", "!", "x", " ", "a", "\n", ".", ".", ".", "\n", "!", "e", "!", "y", " ", "b", "\n">>],
+  [name |-> "handle-of-previous-document-explicit", kind |-> "stream", frag |-> <<"%", "T", "A", "G", " ", "!", "e", "!", " ", "t", "a", "g", ":", "e", ":", "\n", "-", "-", "-", " ", "a", "\n", "-", "-", "-", " ", "!", "e", "!", "y", " ", "b", "\n">>],
   [name |-> "content-after-document-end-2", kind |-> "stream", frag |-> <<"a", ":", " ", "b", "\n", ".", ".", ".", " ", "-", " ", "c", "\n">>] >>
 
 \* base: a well-formed stream ending with a line break (its text). placement: 0 = own document, 1 = nested
